@@ -353,7 +353,11 @@ func init() {
 				fr = hj("C15.frame", "H_C15_frame_deep", "one arbitrary frame for the announced file of 0,1,4,5 bytes, chunk size 4 or 0, resume on/off, one preemption of the main loop at a select")
 				fs = hj("C15.frame-stray", "H_C15_frame_stray_resume", "as quick with resume on, files of 1 and 5 bytes")
 			}
-			for _, j := range []*Job{ds, fr, fs} {
+			rs := hj("C15.records", "H_C15_records", "up to 3 well-formed control records in arbitrary order, then the stream ends")
+			if tier == "thorough" {
+				rs = hj("C15.records", "H_C15_records_deep", "up to 4 well-formed control records in arbitrary order, then the stream ends")
+			}
+			for _, j := range []*Job{ds, fr, fs, rs} {
 				j.Threads = true
 				j.TimersNeverFire = true
 				j.EagerCalls = []string{"writeFileDone", "hashFileChunk"}
@@ -361,7 +365,7 @@ func init() {
 			}
 			fr.Preempt, fs.Preempt = 1, 1
 			fr.PreemptAt, fs.PreemptAt = "select", "select"
-			js = append(js, ds, fr, fs)
+			js = append(js, ds, fr, fs, rs)
 			for _, j := range js {
 				j.AllocLimit = 64<<20 + 2*48
 				j.Workers = 6
